@@ -18,9 +18,7 @@ Optional keys (serialisation choices and rare legal shapes, drawn independently 
 The harness serialises it to partwise MusicXML (plain .xml and the same bytes inside a .mxl zip), runs the real
 musicxml_reader.musicxml_file_to_sequence_proto on both, and compares with the Gallina model (exact rationals).
 """
-import ast
 import fractions
-import inspect
 import itertools
 import io
 import os
@@ -63,37 +61,124 @@ TRUSTED = ['harness/vt/props/c05.py: abstract-score -> MusicXML serialiser and t
 
 
 # ------------------------------------------------------------------ regenerated constants
+def _probe(score):
+    """Parse one abstract score with the real reader (plain .xml in a private temp dir) and return the proto."""
+    from note_seq import musicxml_reader
+    d = tempfile.mkdtemp(prefix='vt-c05-gen-')
+    try:
+        path = os.path.join(d, 'probe.xml')
+        with open(path, 'w', encoding='utf-8') as f:
+            f.write(to_xml(score))
+        return musicxml_reader.musicxml_file_to_sequence_proto(path)
+    finally:
+        shutil.rmtree(d, ignore_errors=True)
+
+
+def _integral(x, what):
+    if isinstance(x, bool) or float(x) != int(x):
+        raise TypeError('gen_coq: %s is not integral: %r' % (what, x))
+    return int(x)
+
+
+def _code_kind_table():
+    """The code's own kind table when it is reachable as an attribute (class or module level), else None."""
+    from note_seq import musicxml_parser
+    for owner in (getattr(musicxml_parser, 'ChordSymbol', None), musicxml_parser):
+        t = getattr(owner, 'CHORD_KIND_ABBREVIATIONS', None)
+        if isinstance(t, dict) and all(isinstance(k, str) for k in t):
+            return t
+    return None
+
+
+def _kind_name_list():
+    """Names of the supported chord kinds, in the code's own table order when reachable, else the documented list."""
+    t = _code_kind_table()
+    return list(t) if t is not None else list(KIND_TABLE)
+
+
 def gen_coq():
-    from note_seq import constants, musicxml_parser, musicxml_reader
-    st = musicxml_parser.MusicXMLParserState()
-    if st.qpm * st.seconds_per_quarter != 60 or st.time_position != 0 or st.transpose != 0 \
-            or st.time_signature is not None or st.previous_note is not None:
-        raise TypeError('MusicXMLParserState defaults changed shape: %r' % (vars(st),))
-    trm = musicxml_parser.NoteDuration.TYPE_RATIO_MAP
-    if sorted(trm) != sorted(TYPE_NAMES):
-        raise TypeError('TYPE_RATIO_MAP keys changed: %r' % (sorted(trm),))
-    # music_proto_keys is a literal inside musicxml_to_sequence_proto: read it from the source, fail closed
-    tree = ast.parse(inspect.getsource(musicxml_reader.musicxml_to_sequence_proto))
-    keys = None
-    for node in ast.walk(tree):
-        if isinstance(node, ast.Assign) and len(node.targets) == 1 and \
-                getattr(node.targets[0], 'id', None) == 'music_proto_keys':
-            keys = ast.literal_eval(node.value)
-    if not isinstance(keys, list):
-        raise TypeError('music_proto_keys literal not found in musicxml_to_sequence_proto')
+    """Every constant / table the model depends on is OBSERVED through the real reader on tiny probe scores (so moving a
+    table between a function body, a class and the module is invisible); fail closed only when the behaviour cannot
+    be read off (a probe raises, or a value is not of the expected shape)."""
+    A = lambda *items: ['attr', [list(i) for i in items]]
+    q = lambda **kw: _n(0, 0, 4, 1, **kw)
+    # parser-state defaults: a score that declares neither divisions nor tempo nor <midi-instrument>
+    ns = _probe({'parts': [{'midi': None, 'measures': [[q()]]}]})
+    if len(ns.tempos) != 1 or ns.tempos[0].time != 0 or len(ns.notes) != 1 or ns.notes[0].start_time != 0:
+        raise TypeError('gen_coq: default-state probe has unexpected shape')
+    init_qpm = _integral(ns.tempos[0].qpm, 'initial qpm')
+    secs = F(ns.notes[0].end_time).limit_denominator(10 ** 6)
+    if secs <= 0:
+        raise TypeError('gen_coq: default-state probe: non-positive note length')
+    init_div = _integral(F(60) / init_qpm / secs, 'initial divisions')
+    def_chan, def_prog = _integral(ns.notes[0].instrument, 'channel'), _integral(ns.notes[0].program, 'program')
+    # tempo="0" falls back to the default tempo
+    ns = _probe({'parts': [{'midi': None, 'measures': [[['tempo', '0'], A(['div', 1]), q()]]}]})
+    if len(ns.tempos) != 1:
+        raise TypeError('gen_coq: tempo-0 probe has unexpected shape')
+    default_qpm = _integral(ns.tempos[0].qpm, 'default qpm')
+    # fifths -> proto key: one <key> per measure (distinct times), then the extent of the table beyond 7
+    lo, hi = -7, 7
+    ns = _probe({'parts': [{'midi': None, 'measures': [[A(['div', 1], ['key', f, 1]), q()] for f in range(lo, hi + 1)]}]})
+    if len(ns.key_signatures) != hi - lo + 1 or [k.time for k in ns.key_signatures] != sorted(k.time for k in ns.key_signatures):
+        raise TypeError('gen_coq: key probe has unexpected shape')
+    keys = [int(k.key) for k in ns.key_signatures]
+    one_key = lambda f: _probe({'parts': [{'midi': None, 'measures': [[A(['div', 1], ['key', f, 1]), q()]]}]})
+    f = hi + 1
+    while True:
+        try:
+            keys.append(int(one_key(f).key_signatures[0].key))
+        except IndexError:
+            break
+        f += 1
+        if f > 40:
+            raise TypeError('gen_coq: fifths -> key table has no end below 40')
+    # ... and it is a sequence indexed by fifths + 7 with Python's negative indices (what the model assumes)
+    n = len(keys)
+    if int(one_key(-8).key_signatures[0].key) != keys[n - 1]:
+        raise TypeError('gen_coq: fifths -> key lookup is not sequence indexing (probe -8)')
+    try:
+        one_key(-7 - n - 1)
+        raise TypeError('gen_coq: fifths -> key lookup is not sequence indexing (probe below the table)')
+    except IndexError:
+        pass
+    # note types -> ratio: one plain note of every type
+    ns = _probe({'parts': [{'midi': None, 'measures': [[A(['div', 1])] + [q(ty=i) for i in range(len(TYPE_NAMES))]]}]})
+    if len(ns.notes) != len(TYPE_NAMES):
+        raise TypeError('gen_coq: note-type probe has unexpected shape')
+    ratios = [(int(x.numerator), int(x.denominator)) for x in ns.notes]
+    # chord kinds -> abbreviation: figure of "C <kind>" minus the root letter; 'none' gives N.C. whatever the root
+    names = _kind_name_list()
+    _KINDS['names'] = names
+    ns = _probe({'parts': [{'midi': None, 'measures': [
+        [A(['div', 1])] + [['harmony', [0, None], i, [], None, None] for i in range(len(names))] + [q()]]}]})
+    if len(ns.text_annotations) != len(names):
+        raise TypeError('gen_coq: chord-kind probe has unexpected shape')
+    abbrevs = []
+    for name, ta in zip(names, ns.text_annotations):
+        t = str(ta.text)
+        if t == 'N.C.':
+            abbrevs.append(t)
+        elif t.startswith('C'):
+            abbrevs.append(t[1:])
+        else:
+            raise TypeError('gen_coq: chord-kind probe: figure %r for kind %r' % (t, name))
     s = 'From Coq Require Import ZArith List.\nImport ListNotations.\nLocal Open Scope Z_scope.\n\n'
-    s += G.defz('DEFAULT_QPM', constants.DEFAULT_QUARTERS_PER_MINUTE)
-    s += G.defz('INIT_QPM', st.qpm)
-    s += G.defz('INIT_DIVISIONS', st.divisions)
-    s += G.defz('DEFAULT_MIDI_CHANNEL', musicxml_parser.DEFAULT_MIDI_CHANNEL)
-    s += G.defz('DEFAULT_MIDI_PROGRAM', musicxml_parser.DEFAULT_MIDI_PROGRAM)
+    s += G.defz('DEFAULT_QPM', default_qpm)
+    s += G.defz('INIT_QPM', init_qpm)
+    s += G.defz('INIT_DIVISIONS', init_div)
+    s += G.defz('DEFAULT_MIDI_CHANNEL', def_chan)
+    s += G.defz('DEFAULT_MIDI_PROGRAM', def_prog)
     s += G.defzlist('MUSIC_PROTO_KEYS', keys)
-    kinds = musicxml_parser.ChordSymbol.CHORD_KIND_ABBREVIATIONS
     s += 'Definition CHORD_KINDS : list (list Z * list Z) :=\n  [%s].\n' % ';\n   '.join(
-        '(%s, %s)' % (G.string(k), G.string(v)) for k, v in kinds.items())
+        '(%s, %s)' % (G.string(k), G.string(v)) for k, v in zip(names, abbrevs))
     s += 'Definition NOTE_TYPE_RATIOS : list (Z * Z) :=\n  [%s].\n' % '; '.join(
-        '(%s, %s)' % (G.z(trm[n].numerator), G.z(trm[n].denominator)) for n in TYPE_NAMES)
+        '(%s, %s)' % (G.z(n_), G.z(d_)) for n_, d_ in ratios)
+    _KINDS['defaults'] = (def_chan, def_prog)
     return s
+
+
+_KINDS = {}
 
 
 # ------------------------------------------------------------------ serialiser
@@ -178,8 +263,17 @@ def _elem_xml(e, fmt=None):
 
 
 def _kind_names():
-    from note_seq import musicxml_parser
-    return list(musicxml_parser.ChordSymbol.CHORD_KIND_ABBREVIATIONS)
+    if 'names' not in _KINDS:
+        _KINDS['names'] = _kind_name_list()
+    return _KINDS['names']
+
+
+def _code_defaults():
+    """(channel, program) the implementation gives a part without MIDI information (for the model side)."""
+    if 'defaults' not in _KINDS:
+        ns = _probe({'parts': [{'midi': None, 'measures': [[_n(0, 0, 4, 1)]]}]})
+        _KINDS['defaults'] = (int(ns.notes[0].instrument), int(ns.notes[0].program))
+    return _KINDS['defaults']
 
 
 def midi_of(p, default=(0, 0)):
@@ -423,7 +517,7 @@ def model_input(case):
         return None                       # file-level / literal-XML malformations: oracle only
     parts = []
     for p in case['input']['parts']:
-        c, g = midi_of(p, (mp.DEFAULT_MIDI_CHANNEL, mp.DEFAULT_MIDI_PROGRAM))
+        c, g = midi_of(p, _code_defaults())
         parts.append([c, g, [_flat(m) for m in p['measures']]])
     return [1, parts]
 
@@ -626,7 +720,7 @@ def _figure(root, kind, degs, bass):
         k = ''
     else:
         name = _kind_names()[kind]
-        k = KIND_TABLE.get(name, musicxml_parser.ChordSymbol.CHORD_KIND_ABBREVIATIONS[name])
+        k = KIND_TABLE[name] if name in KIND_TABLE else (_code_kind_table() or {}).get(name, '')
     if k == 'N.C.':
         return k
     fig = STEPS[root[0]] + _ALT[root[1]] + k
